@@ -14,7 +14,7 @@ pub mod io {
         pub uninterp spec fn kind_spec(&self) -> ErrorKind;
         // R2: the message text of an io::Error is never observable by a client; only Err-vs-Ok is.
         #[verifier::external_body]
-        pub fn new(kind: ErrorKind, _msg: &str) -> (r: Error) ensures r.kind_spec() == kind { unimplemented!() }
+        pub fn new<M>(kind: ErrorKind, _msg: M) -> (r: Error) ensures r.kind_spec() == kind { unimplemented!() }
         #[verifier::external_body]
         pub fn kind(&self) -> (r: ErrorKind) ensures r == self.kind_spec() { unimplemented!() }
     }
@@ -28,3 +28,16 @@ pub mod cmp {
     #[verifier::external_body]
     pub fn min(a: usize, b: usize) -> (r: usize) ensures r == (if a <= b { a } else { b }) { unimplemented!() }
 }
+
+// UTF-8 bytes of a String (uninterpreted; related to other things only through the stand-ins that mention it)
+pub uninterp spec fn string_bytes(s: String) -> Seq<u8>;
+
+// ASSUMED contracts on std
+pub assume_specification[ u8::is_ascii_digit ](c: &u8) -> (r: bool)
+    ensures r == (0x30 <= *c <= 0x39);
+// R2: `format!(..)` is replaced by a call to this stand-in: some String about which nothing is known
+#[verifier::external_body]
+pub fn fmt_standin() -> (r: String) { unimplemented!() }
+// R12b: `String::from(x)` (x: &str) is redirected here: the same text
+#[verifier::external_body]
+pub fn string_from_str(s: &str) -> (r: String) ensures r@ == s@, string_bytes(r) == s.spec_bytes() { unimplemented!() }
